@@ -259,6 +259,38 @@ def check(run):
         run.violation("R4", fi.where, "hashable_rows returns a packed value outside the range guard",
                       key=key_of("C06-R4", "return-outside-guard"))
 
+    # every return OUTSIDE the guarded packing block hands back row content unchanged (the void view, the converted input itself): a value
+    # accumulated by arithmetic there (multiply-add / xor folds) is a lossy hash of the row, not the row
+    ARITH_FN = {"multiply", "add", "subtract", "bitwise_xor", "bitwise_or", "left_shift", "dot", "sum", "matmul", "mod", "remainder"}
+    in_outer = {id(x) for x in ast.walk(outer)}
+    for r in ast.walk(fi.node):
+        if not isinstance(r, ast.Return) or r.value is None or id(r) in in_outer:
+            continue
+        names = {n_.id for n_ in ast.walk(r.value) if isinstance(n_, ast.Name)}
+        writers = []
+        for st in ast.walk(fi.node):
+            if id(st) in in_outer:
+                continue
+            if isinstance(st, ast.AugAssign) and isinstance(st.target, ast.Name) and st.target.id in names and isinstance(st.op, (ast.Mult, ast.Add, ast.BitXor, ast.LShift, ast.BitOr, ast.Mod)):
+                writers.append(st)
+            if isinstance(st, ast.Call) and getattr(st.func, "attr", getattr(st.func, "id", "")) in ARITH_FN:
+                outs = [k_.value for k_ in st.keywords if k_.arg == "out"]
+                if any(isinstance(o_, ast.Name) and o_.id in names for o_ in outs):
+                    writers.append(st)
+            if isinstance(st, ast.Assign) and len(st.targets) == 1 and isinstance(st.targets[0], ast.Name) and st.targets[0].id in names:
+                if any(isinstance(b_, ast.BinOp) and isinstance(b_.op, (ast.Mult, ast.BitXor, ast.LShift, ast.Mod)) and
+                       any(isinstance(n_, ast.Name) and n_.id in names | {arr} for n_ in ast.walk(b_)) for b_ in ast.walk(st.value)):
+                    writers.append(st)
+        direct = any(isinstance(b_, ast.BinOp) and isinstance(b_.op, (ast.Mult, ast.BitXor, ast.LShift, ast.Mod, ast.Add)) for b_ in ast.walk(r.value)) \
+            or any(isinstance(c_, ast.Call) and getattr(c_.func, "attr", "") in ARITH_FN for c_ in ast.walk(r.value))
+        lossy = bool(writers) or direct
+        run.obligation("R4", f"{fi.module.rel}:{r.lineno} {fi.qualname}", f"return `{ast.unparse(r.value)[:50]}` outside the guarded packing is row content unchanged (no arithmetic fold)", not lossy)
+        if lossy:
+            w_ = writers[0] if writers else r
+            run.violation("R4", f"{fi.module.rel}:{w_.lineno} {fi.qualname}", f"hashable_rows returns `{ast.unparse(r.value)[:40]}` outside the range-guarded bit packing, and that value is accumulated by "
+                          f"arithmetic (`{ast.unparse(w_)[:70]}`): a multiply-add / xor fold of the columns is not injective (it wraps modulo 2^64), so different rows "
+                          f"receive the same key and unique_rows / group_rows merge them", key=key_of("C06-R4", "lossy-fold"))
+
     # ---- R6 float_to_int returns int64 everywhere
     f2 = ix.func("trimesh.grouping:float_to_int")
     rets = [r for r in ast.walk(f2.node) if isinstance(r, ast.Return)]
